@@ -140,6 +140,15 @@ pub fn run_case(voc: &concretise::Vocab, case: &Value, dump: Option<&str>) -> Ve
         }
     }
     match drv {
+        "gen" if case["path"].is_string() => {
+            match zeep_lib::utils::read_input_file_and_xsd_files_at_path(std::path::Path::new(case["path"].as_str().unwrap())) {
+                Ok(ftr) => {
+                    let g = generate(&ftr, 1, true);
+                    events.extend(g.events);
+                }
+                Err(e) => events.push(json!({"ev":"harness_error","msg":format!("cannot load: {e}")}).to_string()),
+            }
+        }
         "gen" => {
             let ftr = build_files(&files, order_of(case, files.len()).as_deref(), &start);
             let g = generate(&ftr, 1, true);
